@@ -48,7 +48,7 @@ func init() {
 	Register(&Check{
 		ID:        "C04",
 		Technique: "explicit-state enumeration of (protocol state x next frame header alphabet) on the real reader, judged by an independent RFC 6455 classifier",
-		Rule:      "cases = {4 prefix states} x {role} x {deflate negotiated} x {16 opcodes x FIN x RSV1-3 x MASK x 6 length classes, + close-body classes} x {2 read programs}; non-trivial = the reader consumed at least the candidate frame header and the case took a non-default choice; distinct = distinct observation hash",
+		Rule:      "cases = {4 prefix states} x {role} x {deflate negotiated} x {16 opcodes x FIN x RSV1-3 x MASK x 6 length classes, + close-body classes} x {4 read programs: ReadMessage, NextReader+Read, every message abandoned after 0 / 1 bytes}; non-trivial = the reader consumed at least the candidate frame header and the case took a non-default choice; distinct = distinct observation hash",
 		Assumptions: []string{
 			"oracle is ref/wsref.Judge written from RFC 6455 §5; don't-care: RSV1 on control/continuation under permessage-deflate, 1-byte close body, close codes 1004/1012-1014/1016-2999/>=5000, zero-length RSV1 message",
 			"compress/flate inflater trusted",
@@ -196,7 +196,8 @@ func c04Body(x *explore.Ctx, state string, readerIsServer, deflate bool, chunkin
 	} else if len(soft) > 0 {
 		verdict = "dontcare"
 	}
-	prog := x.Pick(2, "readprog")
+	prog := x.Pick(4, "readprog")
+	abandon := prog >= 2 // messages are abandoned: compare which messages were started, by type
 
 	// ---- tail: complete the message if one is open after a conformant candidate, then "after"
 	stream := wsref.EncodeAll(prefix)
@@ -252,6 +253,24 @@ func c04Body(x *explore.Ctx, state string, readerIsServer, deflate bool, chunkin
 	}
 	if state == "in-frag-ping" {
 		wantHandlers = append(wantHandlers, "ping:pp")
+	}
+	if abandon && inMsg {
+		// the open message was started (and abandoned) before the candidate frame was looked at
+		wantMsgs = append(wantMsgs, wsref.Message{Type: wsref.OpBinary})
+	}
+	msgsEqual := msgsEqual
+	if abandon {
+		msgsEqual = func(a, b []wsref.Message) bool {
+			if len(a) != len(b) {
+				return false
+			}
+			for i := range a {
+				if a[i].Type != b[i].Type {
+					return false
+				}
+			}
+			return true
+		}
 	}
 	switch verdict {
 	case "violation":
@@ -313,6 +332,18 @@ func c04Body(x *explore.Ctx, state string, readerIsServer, deflate bool, chunkin
 				wantH = append(wantH, "pong:"+string(m.Payload))
 			default:
 				wantMsgs = append(wantMsgs, m)
+			}
+		}
+		if abandon {
+			// started messages: every text/binary frame before the first close frame
+			wantMsgs = nil
+			for _, f := range full.Frames {
+				if f.Opcode == wsref.OpClose {
+					break
+				}
+				if f.Opcode == wsref.OpText || f.Opcode == wsref.OpBinary {
+					wantMsgs = append(wantMsgs, wsref.Message{Type: int(f.Opcode)})
+				}
 			}
 		}
 		x.Check(msgsEqual(rr.Msgs, wantMsgs), kbase+":conformant-delivery", "conformant stream: delivered %s, want %s (err %v)", fmtMsgs(rr.Msgs), fmtMsgs(wantMsgs), rr.Err)
